@@ -543,7 +543,7 @@ func c16NewRun(ctx *Ctx, r *rand.Rand, idx int, base string) *c16Run {
 	}
 	h.ctxs = append([]string(nil), c16Contexts...)
 	giant := 0
-	if x := r.Intn(100); x < 8 && (!ctx.Thorough || idx%10 == 0) { // (thorough tier: a tenth of them - 30x the runs, 3x the giants)
+	if x := r.Intn(100); x < 8 && (!ctx.Thorough || (idx%10 == 0 && x != 0)) { // (thorough tier: a tenth of them, and none of the 1 MiB ones - they are the quick tier's)
 		// one text far longer than any line or token buffer a reader is likely to use (64 KiB, 1 MiB): as one unbroken word, or as words
 		giant = []int{65530, 65536, 65537, 70001, 140000}[r.Intn(5)]
 		if x == 0 {
